@@ -4,7 +4,10 @@ go 1.25.0
 
 toolchain go1.26.1
 
-require github.com/klev-dev/klevdb v0.0.0
+require (
+	github.com/anishathalye/porcupine v1.3.0
+	github.com/klev-dev/klevdb v0.0.0
+)
 
 require (
 	github.com/gofrs/flock v0.13.0 // indirect
